@@ -84,6 +84,21 @@ HISTORY = {  # what had to be strengthened before the change was caught (filled 
     "C13o": "missed at first: merges covered one cell -> feature wide-merge (3-4 columns, covered cells as one repeated element, a value to the right)",
     "C13p": "missed at first: nested tables sat directly in the cell -> feature nested-table-in-sdt (w:tc/w:sdt/w:sdtContent/w:tbl, a table after it; count of tables claimed)",
     "C14o": "missed at first: no ODS placed one picture part twice -> feature shared-picture (a logo on every sheet next to a picture of the sheet's own)",
+    "C01q": "missed at first: mail results were not consumed down to their attachments in direct mode, and no .msg attachment carried its MIME tag in another letter case under a name without extension -> attachments walked; the repository's message relabelled by same-length replacements",
+    "C01r": "missed at first: cross-format inputs were unmutated only -> OLE2 containers cut short / overwritten handed to the OOXML and ODF extractors (and ZIP containers to the legacy ones)",
+    "C02q": "missed at first: every text leaf was a unique token, so 'same multiplicity' could not be probed for repeated texts -> Expect.repeats: a label that stands in 2-3 separate leaves (ODG shapes) must occur as often in the output",
+    "C02r": "not reported by C02 (archives are not in its document family); caught by C10 (members under ./ names)",
+    "C03r": "missed at first: no running text stood directly before and after an <hr> in one parent -> such blocks in a tenth of the HTML-family bodies",
+    "C04r": "missed at first: every page wrote its <head> tags -> feature no-head-tags (twin: with the tags)",
+    "C05q": "missed at first: streams of the rebuilt object were inspected with getvalue() and the JSON was restored once -> no two binary fields may be one stream object; after a consumer has read and closed the first rebuilt object's streams a second from_json of the same JSON must hand out fresh ones",
+    "C05r": "missed at first: only to_json() of the rebuilt object was compared, which re-emits a nested object left as a plain dict unchanged -> nested dataclass instances are compared by class, path by path",
+    "C08q": "missed at first: every ZIP member name was ASCII (flag word 0) -> plain archives with non-ASCII member names (general-purpose bit 11) must extract like their ASCII twins",
+    "C08r": "missed at first: every stream handed to an extractor stood at position 0 -> direct calls with a buffer that was filled and not rewound, and with one the caller sniffed 8 bytes from",
+    "C13q": "not reported by C13 (cells of the nested-table features are unclaimed there); caught by C02's table-text coverage once the enclosing cell goes on after the nested table",
+    "C13r": "missed at first: every row inside the used range had at least one cell record -> feature empty-row-inside",
+    "C14q": "not reported by C14 (the unit view is only compared when the unit count is right); caught by C03 (unit count, image-only last page)",
+    "C14r": "missed at first: drawing parts were numbered like their sheets -> reversed, shifted (drawing10 before drawing2) and shuffled part numbers on half of the workbooks",
+    "C20q": "missed at first: IVs were random -> the all-zero IV (pypdf's key unwrap), all-ones and single-bit IVs in 15 % of the CBC calls",
 }
 # a change that is not a violation under every admissible reading of the property text: the check admits both readings, by design
 DISPUTED = {
@@ -92,13 +107,14 @@ DISPUTED = {
             "the ZipBombLimits docstring settles it. The reference predicate of C11 admits both counts where they differ (951 vectors per quick run are of that kind), because demanding the "
             "unchanged tree's count would demand more than the property states.",
 }
-# changes the quick tier missed when they arrived (rounds 4 to 8, from the campaign logs); what was widened is in DESIGN §19-§20
+# changes the quick tier missed when they arrived (rounds 4 to 9, from the campaign logs); what was widened is in DESIGN §19-§20
 MISSED_ON_ARRIVAL = set("""C01g C01h C02h C03g C04g C04h C05g C05h C08g C08h C09g C09h C10h C11g C12g C12h C13h C14g C14h C16g C16h C19g C07h C15g
 C01i C01j C02i C03i C03j C04j C05i C05j C06i C06j C07j C08i C08j C09j C10i C10j C11i C12i C12j C13i C13j C14i C14j C15i C16j C17j C19j
 C01k C02k C02l C04k C04l C05k C08l C13k C13l C06l C07k C09l C10l C12k C12l C14k C14l C15k C15l C16k C16l C17k C20k
 C01m C01n C03m C03n C13m C13n C14m C14n C06n C07n C09n C10n C11m C11n C16m C16n C17m C12m C12n C15m C15n C19m
 C01o C01p C02o C03o C04o C04p C05o C05p C08p C13o C13p C14o
-C06o C06p C07o C09p C10o C10p C11o C12o C12p C15o C15p C16p C18o""".split())
+C06o C06p C07o C09p C10o C10p C11o C12o C12p C15o C15p C16p C18o
+C01q C01r C02q C02r C03r C04r C05q C05r C08q C08r C13q C13r C14q C14r C20q""".split())
 
 
 def history_for(sid):
